@@ -70,20 +70,24 @@ type W struct {
 	start   time.Time
 	softDur time.Duration
 
-	known     []KnownFinding
-	journal   *os.File
-	guardMu   sync.Mutex
-	guardCase string
-	guardAt   time.Time
-	guardOn   bool
-	onHang    func()
+	known      []KnownFinding
+	journal    *os.File
+	guardMu    sync.Mutex
+	guardCase  string
+	guardAt    time.Time
+	guardLimit time.Duration
+	guardOn    bool
+	onHang     func()
 }
 
 // Guard declares the case about to be executed. If the worker process dies
 // with a fatal error (stack overflow, out of memory) the coordinator reports
 // the journalled case as a violation; if the case is still running after two
 // minutes it is reported as a hang.
-func (w *W) Guard(c string) {
+func (w *W) Guard(c string) { w.GuardFor(c, HangAfter) }
+
+// GuardFor is Guard with its own hang limit (for families of cases whose cost is known to be tiny).
+func (w *W) GuardFor(c string, limit time.Duration) {
 	if w.journal != nil {
 		b := []byte(c)
 		if len(b) > 60000 {
@@ -93,7 +97,7 @@ func (w *W) Guard(c string) {
 		w.journal.WriteAt(append([]byte(hdr), b...), 0)
 	}
 	w.guardMu.Lock()
-	w.guardCase, w.guardAt = c, time.Now()
+	w.guardCase, w.guardAt, w.guardLimit = c, time.Now(), limit
 	if !w.guardOn {
 		w.guardOn = true
 		go w.watchdog()
@@ -118,10 +122,10 @@ func (w *W) watchdog() {
 	for {
 		time.Sleep(2 * time.Second)
 		w.guardMu.Lock()
-		c, at := w.guardCase, w.guardAt
+		c, at, limit := w.guardCase, w.guardAt, w.guardLimit
 		w.guardMu.Unlock()
-		if c != "" && time.Since(at) > HangAfter {
-			w.Violate(Violation{Kind: "hang", Case: c, Detail: fmt.Sprintf("still running after %v", HangAfter), Size: 1})
+		if c != "" && time.Since(at) > limit {
+			w.Violate(Violation{Kind: "hang", Case: c, Detail: fmt.Sprintf("still running after %v", limit), Size: 1})
 			w.Inexhaustive("worker stopped at a hanging case")
 			if w.onHang != nil {
 				w.onHang()
@@ -283,7 +287,7 @@ type KnownFinding struct {
 	CaseContain string `json:"case_contains"`
 	// DetailContain, when set, must also occur in the violation's detail.
 	DetailContain string `json:"detail_contains,omitempty"`
-	Description string `json:"description"`
+	Description   string `json:"description"`
 }
 
 func loadKnown() []KnownFinding {
